@@ -134,6 +134,8 @@ impl HistoryEntry {
 
     /// Record the first publication for a newer execution incarnation.
     fn record(&self, incarnation: usize, value: EntryValue) -> bool {
+        #[cfg(feature = "verif")]
+        crate::verif::point(crate::verif::pt::HIST_RECORD, incarnation);
         let mut state = self.state.write();
         if incarnation <= state.incarnation {
             return false;
@@ -145,6 +147,8 @@ impl HistoryEntry {
 
     /// Invalidate only the exact incarnation that validation inspected.
     fn invalidate(&self, incarnation: usize) -> bool {
+        #[cfg(feature = "verif")]
+        crate::verif::point(crate::verif::pt::HIST_INVALIDATE, incarnation);
         let mut state = self.state.write();
         if state.incarnation != incarnation {
             return false;
@@ -269,6 +273,8 @@ impl BeneficiaryHistory {
         let mut rewards_newest_first = Vec::new();
 
         for writer in (0..txid).rev() {
+            #[cfg(feature = "verif")]
+            crate::verif::point(crate::verif::pt::HIST_SCAN, writer);
             let EntryState { incarnation, value } = self.entries[writer].snapshot();
             let effect = match value {
                 EntryValue::Estimate => return Err(writer),
